@@ -627,4 +627,78 @@ mod kani_verif {
         kani::cover!(res1.is_err() && res2.is_err());
         kani::cover!(res1.is_err() && res2.is_ok());
     }
+
+    /// An inner reader that obeys the `Read` contract: it returns `Ok(0)`
+    /// only for an empty buffer or at its end, otherwise an arbitrary
+    /// count between 1 and what fits the buffer and what it has left. It
+    /// remembers the size of the buffer it was last given.
+    struct HonestRead {
+        avail: usize,
+        asked: Option<usize>,
+    }
+
+    impl io::Read for HonestRead {
+        fn read(&mut self, buf: &mut [u8]) -> Result<usize, io::Error> {
+            self.asked = Some(buf.len());
+            if buf.is_empty() || self.avail == 0 {
+                return Ok(0)
+            }
+            let n: usize = kani::any();
+            kani::assume(n >= 1 && n <= buf.len() && n <= self.avail);
+            self.avail -= n;
+            Ok(n)
+        }
+    }
+
+    /// C38: one call of the real `LimitedDataRead::read` over a
+    /// well-behaved inner reader, for every limit state, every amount of
+    /// data the inner reader still has and caller buffers of 0 to 4 bytes.
+    ///
+    /// The inner reader is handed the caller's whole buffer; `Ok(0)` for a
+    /// non-empty buffer means the inner reader is at its end (an object
+    /// larger than the limit is never cut off and passed as complete);
+    /// with the budget used up and data remaining the result is the
+    /// stored `LargeObject` error.
+    #[kani::proof]
+    fn limited_read_no_silent_truncation() {
+        let left: Option<u64> = kani::any();
+        let avail: usize = kani::any();
+        let buf_len: usize = kani::any();
+        kani::assume(buf_len <= 4);
+        let uri = NoUri;
+        let mut r = LimitedDataRead::new(
+            HonestRead { avail, asked: None }, &uri, left
+        );
+        let mut buf = [0u8; 4];
+        let res = io::Read::read(&mut r, &mut buf[..buf_len]);
+        assert!(r.reader.asked == Some(buf_len));
+        let delivered = avail - r.reader.avail;
+        match res {
+            Ok(k) => {
+                assert!(k == delivered && k <= buf_len);
+                if buf_len > 0 && avail > 0 {
+                    assert!(k > 0);
+                }
+                if let Some(l) = left {
+                    assert!(k as u64 <= l);
+                    assert!(r.left == Some(l - k as u64));
+                }
+            }
+            Err(_) => {
+                assert!(left.is_some() && delivered as u64 > left.unwrap());
+                assert!(r.left == Some(0));
+                assert!(
+                    matches!(r.err, Some(LimitedDataReadError::LargeObject(_)))
+                );
+            }
+        }
+        if left == Some(0) && avail > 0 && buf_len > 0 {
+            assert!(res.is_err());
+        }
+        kani::cover!(left == Some(0) && avail > 0 && buf_len > 0);
+        kani::cover!(matches!(res, Ok(0)) && avail == 0 && buf_len > 0);
+        kani::cover!(matches!(res, Ok(4)));
+        kani::cover!(res.is_err() && left == Some(2) && delivered == 3);
+        kani::cover!(left.is_none() && matches!(res, Ok(3)));
+    }
 }
